@@ -19,6 +19,9 @@ def run(demo, claim):
     if p.returncode == 0:
         print('OK')
         return 0
+    if p.returncode == 2 and 'SKIP' in out:          # the demo could not set its history up (its hook no longer bites)
+        print(out[-300:])
+        return 2
     fails = [l for l in out.splitlines() if 'FAIL' in l]
     if p.returncode == 1 and fails:
         rest = ' | '.join(l.strip() for l in out.splitlines() if l.strip() and 'FAIL' not in l)[:500]
